@@ -35,3 +35,65 @@ pub fn crash_point(label: &'static str) {
         h(label);
     }
 }
+
+// ---------------------------------------------------------------------------------------------
+// Read paths: thin public wrappers around the crate-private read handles, so that a harness can
+// drive exactly the code EmbeddedClient and the gRPC service use.
+// ---------------------------------------------------------------------------------------------
+
+/// `EmbeddedReadHandle` as EmbeddedClient holds it.
+pub struct VerifEmbeddedRead<T: TypeConfig>(crate::api::EmbeddedReadHandle<T>);
+
+impl<T: TypeConfig> VerifEmbeddedRead<T> {
+    pub fn new(
+        sm: std::sync::Arc<T::SM>,
+        lease: std::sync::Arc<d_engine_core::ReadLease>,
+        cmd_tx: tokio::sync::mpsc::Sender<d_engine_core::ClientCmd>,
+    ) -> Self {
+        Self(crate::api::EmbeddedReadHandle::new(sm, lease, cmd_tx))
+    }
+    pub async fn get_batch(
+        &self,
+        keys: &[bytes::Bytes],
+        consistency: d_engine_core::config::ReadConsistencyPolicy,
+        client_id: u32,
+        timeout: std::time::Duration,
+    ) -> d_engine_core::client::ClientApiResult<Vec<Option<bytes::Bytes>>> {
+        self.0.get_batch(keys, consistency, client_id, timeout).await
+    }
+}
+
+/// `StandaloneReadHandle` + its ReadActor, wired as NodeBuilder wires them for the gRPC service.
+pub struct VerifStandaloneRead {
+    handle: crate::api::StandaloneReadHandle,
+    pub actor: tokio::task::JoinHandle<()>,
+}
+
+impl VerifStandaloneRead {
+    pub fn new<SM: d_engine_core::StateMachine>(
+        sm: std::sync::Arc<SM>,
+        lease: std::sync::Arc<d_engine_core::ReadLease>,
+        cmd_tx: tokio::sync::mpsc::Sender<d_engine_core::ClientCmd>,
+    ) -> Self {
+        let (read_tx, read_rx) = tokio::sync::mpsc::channel(64);
+        let actor = tokio::spawn(crate::read_actor::run_read_actor(read_rx, lease, sm, 64));
+        Self { handle: crate::api::StandaloneReadHandle::new(Some(read_tx), cmd_tx), actor }
+    }
+    pub async fn get_batch(
+        &self,
+        keys: &[bytes::Bytes],
+        consistency: d_engine_core::config::ReadConsistencyPolicy,
+        client_id: u32,
+        timeout: std::time::Duration,
+    ) -> d_engine_core::client::ClientApiResult<Vec<Option<bytes::Bytes>>> {
+        self.handle.get_batch(keys, consistency, client_id, timeout).await
+    }
+}
+
+/// The response the gRPC service builds on its fast path.
+pub fn fast_path_batch_read_response(
+    keys: &[bytes::Bytes],
+    values: Vec<Option<bytes::Bytes>>,
+) -> d_engine_proto::client::ClientResponse {
+    crate::proto_convert::fast_path_batch_read_response(keys, values)
+}
